@@ -406,3 +406,15 @@ package resolver
 //@   nosafety all pre
 //@   assert at return#1: result1 && loopCount > 1
 //@   assert at return#2: !result1
+//@
+//@ # ---- C07 / C08: one referral = one coherent NS RRset. Only NS records with the first NS record's owner (up to case)
+//@ # and class contribute nameserver hosts; any other NS record marks the referral incoherent (and contributes nothing);
+//@ # the lease TTL only ever goes DOWN from the first record's TTL (minimum over the set)
+//@ func (*Resolver).extractDelegationInfo
+//@   abstract
+//@   nosafety all pre
+//@   assert at store resolver.delegationInfo.nsTTL#1: value == h.Ttl && info.nsRecord == v
+//@   assert at store resolver.delegationInfo.nsTTL#2: value == h.Ttl && value < info.nsTTL
+//@   assert at store resolver.delegationInfo.incoherent#1: value && (!lastret("strings.EqualFold") || h.Class != info.nsRecord.Hdr.Class)
+//@   assert at mapupdate#2: lastret("strings.EqualFold") && h.Class == info.nsRecord.Hdr.Class && info.nsRecord != nil
+//@   assert at call strings.EqualFold#1: arg0 == h.Name && arg1 == info.nsRecord.Hdr.Name
